@@ -198,8 +198,51 @@ def o_met(case):
     return None
 
 
+@oracle
+def o_numeric_labels(case):
+    """time axes labelled with NUMBERS (1-based record numbers, hour of day across midnight, decimal hours, a countdown, epoch
+    seconds): step i takes the i-th list entries and the i-th label, through MetConfig and through a parsed configuration"""
+    from bldfm.config_parser import MetConfig, parse_config_dict
+    n = case["n"]
+    labels = {"one-based": list(range(1, n + 1)), "midnight": [(23 + k) % 24 for k in range(n)], "decimal": [0.5 * k for k in range(n)],
+              "countdown": list(range(n - 1, -1, -1)), "epoch": [1700000000 + 1800 * k for k in range(n)],
+              "float-index": [float((k + 1) % n) for k in range(n)], "neg": [k - 2 for k in range(n)]}[case["kind"]]
+    lists = case["lists"]
+    vals = dict(ustar=[0.2 + 0.01 * k for k in range(n)], mol=[-100.0 - k for k in range(n)], wind_speed=[3.0 + k for k in range(n)],
+                wind_dir=[10.0 * (k + 1) for k in range(n)])
+    kw = {f: (vals[f] if f in lists else vals[f][0]) for f in FIELDS}
+    if case.get("z0_only"):
+        kw["ustar"] = None
+    for build in ("dataclass", "dict"):
+        if build == "dataclass":
+            m = MetConfig(z0=0.05 if case.get("z0_only") else None, timestamps=list(labels), **kw)
+        else:
+            met = dict(kw, timestamps=list(labels))
+            if case.get("z0_only"):
+                met.pop("ustar")
+                met["z0"] = 0.05
+            m = parse_config_dict(dict(domain=dict(nx=4, ny=4, xmax=10.0, ymax=10.0, nz=3), towers=[dict(name="t", lat=0.0, lon=0.0, z_m=2.0)], met=met)).met
+        m.validate()
+        if m.n_timesteps != (n if lists else 1):
+            return fail("C16/numeric-labels/count", "n_timesteps of a forcing with %s labels" % case["kind"], None, n if lists else 1, m.n_timesteps, 0)
+        for i in range(n if lists else 1):
+            s_ = m.get_step(i)
+            exp = {f: (vals[f][i] if f in lists else vals[f][0]) for f in FIELDS}
+            if case.get("z0_only"):
+                exp["ustar"] = None
+            got = {f: s_[f] for f in FIELDS}
+            if got != exp or s_["timestamp"] != labels[i] or type(s_["timestamp"]) is not type(labels[i]):
+                return fail("C16/numeric-labels/step", "step %d of a forcing whose time axis is labelled %s (%s labels, built as %s) is not the %d-th entries with the %d-th label"
+                            % (i, labels, case["kind"], build, i, i), None, [exp, labels[i]], [got, s_["timestamp"]], 0)
+    return None
+
+
 def run(rng, tier, deep):
     st = new_stats()
+    for kind in ("one-based", "midnight", "decimal", "countdown", "epoch", "float-index", "neg"):
+        for n in (2, 3, 4):
+            for lists in (("wind_dir",), FIELDS, ("ustar", "mol")):
+                run_oracle(st, o_numeric_labels, dict(kind=kind, n=n, lists=list(lists), z0_only=bool((n + len(lists)) % 2) and "ustar" not in lists))
     cases = enumerate_cases()
     nq = 6
     lines = [op(c, nq) for c in cases]
@@ -230,7 +273,7 @@ def run(rng, tier, deep):
         prev = cases[int(rng.integers(len(cases)))]
         cc = dict(cases[k], prev={kk: vv for kk, vv in prev.items() if kk != "prev"})
         run_oracle(st, o_met, cc)
-    res = finish(st, "EXHAUSTIVE on the stated space: 2^4 list/scalar patterns x lengths 1..4 (+ one mismatched length per list field) x timestamps "
+    res = finish(st, "time axes labelled with numbers (1-based, across midnight, decimal hours, countdown, epoch seconds) x lengths 2..4; EXHAUSTIVE on the stated space: 2^4 list/scalar patterns x lengths 1..4 (+ one mismatched length per list field) x timestamps "
                  "absent/right/wrong/length-1 (as a list, and again as a tuple / numpy array) x ustar/z0/both/neither; correspondence of validate, n_timesteps and get_step(0..5) incl. IndexError; "
                  "oracle: independent statement of the property through MetConfig and parse_config_dict, the timeseries driver's loop count, and MetConfig objects re-used for a second forcing", deep, 0)
     res["exhaustive"] = True
